@@ -76,13 +76,15 @@ func crafted() []string {
 			if i%2 == 0 || kind == "inter" {
 				bt = append(bt, fga.Tuple{Obj: g, Rel: "b", User: "user:x"})
 			}
-			if i%7 == 0 {
+			if i%7 == 0 && (kind != "diff" || i < 8 || i == 252) {
+				// under `diff` the subtracted stream ends early (only the first groups and g252)
 				bt = append(bt, fga.Tuple{Obj: g, Rel: "c", User: "user:x"})
 			}
 		}
 		bt = append(bt, fga.Tuple{Obj: "doc:1", Rel: "viewer", User: "group:g257#member"})
 		bt = append(bt, fga.Tuple{Obj: "doc:2", Rel: "viewer", User: "group:g252#member"}) // 252 = 7*36: excluded under diff
-		for _, o := range []string{"doc:1", "doc:2"} {
+		bt = append(bt, fga.Tuple{Obj: "doc:3", Rel: "viewer", User: "group:g005#member"}) // an EARLY group
+		for _, o := range []string{"doc:1", "doc:2", "doc:3"} {
 			brq := fga.Req{Obj: o, Rel: "viewer", User: "user:x"}
 			out = append(out, fmt.Sprintf("cfg 25 1 %s %s %s %s %s", bm.Encode(), fga.EncodeAux(fga.Aux(bm, bts, brq.User)),
 				fga.EncodeTuples("tuples", bt), fga.EncodeTuples("ctx", nil), brq.Encode()))
@@ -188,7 +190,7 @@ func exec(line string, st *hx.Stats) string {
 		}
 		if len(tuples) > 200 {
 			// large fan-out cases: once more with a slow right-hand side (the consumer lags the producers)
-			slow := fgarun.SlowReads{OpenFGADatastore: ds, Delay: 150 * time.Millisecond}
+			slow := fgarun.SlowReads{OpenFGADatastore: ds, Delay: 250 * time.Millisecond}
 			add(fgarun.Check(ts, slow, fgarun.Config{MaxDepth: uint32(depth), Breadth: 25, Strategy: strat}, rq, ctxT, &fgarun.ForcedPlanner{Want: strat}))
 		}
 		var wg sync.WaitGroup
